@@ -8,11 +8,14 @@ import (
 
 	"github.com/scionproto/scion/control/beaconing"
 	"github.com/scionproto/scion/control/ifstate"
+	"github.com/scionproto/scion/pkg/private/util"
 	"github.com/scionproto/scion/pkg/scrypto"
 	"github.com/scionproto/scion/pkg/scrypto/cppki"
 	"github.com/scionproto/scion/pkg/scrypto/signed"
 	seg "github.com/scionproto/scion/pkg/segment"
 	"github.com/scionproto/scion/pkg/segment/extensions/discovery"
+	"github.com/scionproto/scion/pkg/segment/extensions/staticinfo"
+	"github.com/scionproto/scion/pkg/segment/iface"
 	"github.com/scionproto/scion/private/trust"
 
 	"verif/rtr"
@@ -50,7 +53,12 @@ func (n *Net) BeaconAt(ts time.Time, maxLen int) error {
 // BuildControlPlane is Build without the border routers (Net.Routers stays empty): the same extenders, keys, signer and
 // interface tables, for checks that only need the segments (the combinator checks build several hundred networks).
 // Keep in step with the extender part of Build.
-func BuildControlPlane(t *Topo) (*Net, error) {
+func BuildControlPlane(t *Topo) (*Net, error) { return BuildControlPlaneExt(t, nil) }
+
+// BuildControlPlaneExt additionally lets the ASes for which ext(as) is true announce the optional signed AS-entry
+// extensions: static info (latency, bandwidth, geo, link type, internal hops for every interface and interface pair,
+// a note) and discovery information (one control and one discovery service address).
+func BuildControlPlaneExt(t *Topo, ext func(as int) bool) (*Net, error) {
 	n := &Net{T: t, Up: map[int][]*seg.PathSegment{}, now: time.Now()}
 	for i := range t.ASes {
 		as := &t.ASes[i]
@@ -88,6 +96,40 @@ func BuildControlPlane(t *Topo) (*Net, error) {
 			DiscoveryInformation: func() *discovery.Extension { return nil },
 			EPIC:                 as.EPIC,
 		})
+		if ext != nil && ext(i) {
+			cfg := &beaconing.StaticInfoCfg{
+				Latency:   map[iface.ID]beaconing.InterfaceLatencies{},
+				Bandwidth: map[iface.ID]beaconing.InterfaceBandwidths{},
+				LinkType:  map[iface.ID]beaconing.LinkType{},
+				Geo:       map[iface.ID]beaconing.InterfaceGeodata{},
+				Hops:      map[iface.ID]beaconing.InterfaceHops{},
+				Note:      fmt.Sprintf("note of %s", as.IA),
+			}
+			ends := t.Ends(i)
+			for _, e := range ends {
+				id := iface.ID(e.If)
+				lat := beaconing.InterfaceLatencies{Inter: util.DurWrap{Duration: time.Duration(10+i) * time.Millisecond}, Intra: map[iface.ID]util.DurWrap{}}
+				bw := beaconing.InterfaceBandwidths{Inter: uint64(1000 * (i + 1)), Intra: map[iface.ID]uint64{}}
+				hops := beaconing.InterfaceHops{Intra: map[iface.ID]uint32{}}
+				for _, o := range ends {
+					if o.If != e.If {
+						lat.Intra[iface.ID(o.If)] = util.DurWrap{Duration: time.Duration(1+int(e.If+o.If)%5) * time.Millisecond}
+						bw.Intra[iface.ID(o.If)] = uint64(500 + 10*int(e.If+o.If))
+						hops.Intra[iface.ID(o.If)] = uint32(1 + int(e.If+o.If)%3)
+					}
+				}
+				cfg.Latency[id], cfg.Bandwidth[id], cfg.Hops[id] = lat, bw, hops
+				cfg.LinkType[id] = beaconing.LinkType(staticinfo.LinkTypeDirect + staticinfo.LinkType(int(e.If)%3))
+				cfg.Geo[id] = beaconing.InterfaceGeodata{Longitude: float32(i), Latitude: float32(e.If), Address: fmt.Sprintf("%s#%d", as.IA, e.If)}
+			}
+			disc := &discovery.Extension{
+				ControlServices:   []netip.AddrPort{netip.MustParseAddrPort(fmt.Sprintf("10.%d.0.1:30252", i+1))},
+				DiscoveryServices: []netip.AddrPort{netip.MustParseAddrPort(fmt.Sprintf("10.%d.0.2:8041", i+1))},
+			}
+			x := n.Ext[i]
+			x.StaticInfo = func() *beaconing.StaticInfoCfg { return cfg }
+			x.DiscoveryInformation = func() *discovery.Extension { return disc }
+		}
 	}
 	return n, nil
 }
